@@ -177,11 +177,23 @@ def lean_stage(mod, tier, log):
         if rc != 0:
             res["messages"] += out[-6000:]
             # name the theorems whose source ranges contain an error
-            bad = set()
+            bad, thms = set(), []
             for m in re.finditer(r"error: (\S+\.lean):(\d+):\d+: (.*)", out):
                 f, ln, msg = m.group(1), int(m.group(2)), m.group(3)
                 bad.add(f"{f}:{ln}: {msg[:160]}")
-            res["failed"] = [dict(name="(build of %s)" % mod.LEAN, lean_message=sorted(bad)[:12] or out[-800:])]
+                # the theorem (or definition) whose source range contains the error
+                try:
+                    src_lines = open(os.path.join(LEAN_DIR, f)).read().splitlines()
+                    for k in range(min(ln, len(src_lines)) - 1, -1, -1):
+                        mm = re.match(r"\s*(?:@\[[^\]]*\]\s*)?(?:private\s+|protected\s+|noncomputable\s+)*(theorem|lemma|def|example|instance)\s+([^\s:({\[]+)?", src_lines[k])
+                        if mm:
+                            nm = f"{f.split('/')[-1][:-5]}.{mm.group(2) or mm.group(1)}"
+                            if nm not in thms:
+                                thms.append(nm)
+                            break
+                except OSError:
+                    pass
+            res["failed"] = [dict(name="(build of %s)" % mod.LEAN, theorems_with_errors=thms[:40], lean_message=sorted(bad)[:12] or out[-800:])]
             return res
         res["build_ok"] = True
         # audit
